@@ -478,3 +478,45 @@ M("C04", "dict-positional-reads-crossed", F, "", "", "C04.R7", edits=_dict_block
 M("C04", "dict-splat-of-other-mapping", F, "", "", "C04.R7", edits=_dict_blocks(ret="        fresh = {\"metadata\": None, \"output\": None, \"id\": None}\n" + _R_DICT_RET.replace("(**blocks)", "(**fresh)")))
 M("C04", "display-splat-crossed", F, _R_RET, _R_DISPLAY_RET.replace("\"output\": build_output, \"id\": build_id", "\"output\": build_id, \"id\": build_output"), "C04.R7")
 M("C04", "display-splat-drops-metadata", F, _R_RET, _R_DISPLAY_RET.replace(", \"metadata\": build_metadata", ""), "C04.R7")
+
+# ------------------------------------------------------------------------------------------------ no pass-through path (R10)
+# (wave 5: a length-changing encoder / decoder step guarded by a test on the payload, so that some payloads are passed on
+# unchanged.  The lengths the guard lets through are computed in the interval domain from the path facts; a pass-through is
+# fine only where the step is the identity anyway: the empty payload for the four codecs, nothing for transform mask, blobs
+# shorter than the key - malformed - for recover mask.)
+_R_MASK = "                data = xor(data[4:], data[:4])\n"
+_R_B64 = "                data = base64.b64decode(data + b\"==\")\n"
+_R_B64URL = "                data = base64.urlsafe_b64decode(data + b\"==\")\n"
+_R_NB = "                data = netbios_decode(data.upper())\n"
+_T_B64 = "                data = base64.b64encode(data)\n"
+_T_NB = "                data = netbios_encode(data).lower()\n"
+_T_NBU = "                data = netbios_encode(data).upper()\n"
+
+
+def _guarded(test, stmts):
+    return "                if " + test + ":\n" + "".join("    " + l + "\n" for l in stmts.splitlines())
+
+
+M("C04", "unmask-skipped-for-key-only-blob-by-length", F, _R_MASK, _guarded("len(data) > 4", _R_MASK), "C04.R10")
+M("C04", "unmask-conditional-expression-keeps-key", F, _R_MASK, "                data = xor(data[4:], data[:4]) if data[4:] != b\"\" else data\n", "C04.R10")
+M("C04", "unmask-early-continue-on-bare-key", F, _R_MASK, "                if len(data) - 4 == 0:\n                    continue\n" + _R_MASK, "C04.R10")
+M("C04", "unmask-skipped-when-tail-length-zero", F, _R_MASK, "                body_len = len(data[4:])\n" + _guarded("body_len", _R_MASK), "C04.R10")
+M("C04", "mask-skipped-for-empty-payload", F, _T_MASK, _guarded("data", _T_MASK), "C04.R10")
+M("C04", "mask-skipped-for-short-payload", F, _T_MASK, _guarded("4 <= len(data)", _T_MASK), "C04.R10")
+M("C04", "base64-decode-skipped-below-one-quantum", F, _R_B64, _guarded("len(data) >= 4", _R_B64), "C04.R10")
+M("C04", "base64url-decode-only-long-values", F, _R_B64URL, _guarded("len(data) > 16", _R_B64URL), "C04.R10")
+M("C04", "netbios-decode-skipped-for-one-pair", F, _R_NB, _guarded("len(data) != 2", _R_NB), "C04.R10")
+M("C04", "netbios-encode-skipped-for-single-byte", F, _T_NB, "                data = netbios_encode(data).lower() if len(data) > 1 else data\n", "C04.R10")
+M("C04", "base64-encode-only-up-to-a-limit", F, _T_B64, _guarded("len(data) < 4096", _T_B64), "C04.R10")
+M("C04", "codec-table-unmask-keeps-bare-key", F, "", "", "C04.R10",
+  edits=_tables(enc=_MASKED + _ENC_MASK, dec=_DEC_MASK.replace("lambda raw: xor(raw[4:], raw[:4])", "lambda raw: xor(raw[4:], raw[:4]) if raw[4:] else raw"), mask_in_table=True))
+# twins: the step is skipped only where it is the identity (empty payload), or the short blob still yields the empty payload
+T("C04", "twin-base64-decode-skips-empty", F, _R_B64, _guarded("data", _R_B64))
+T("C04", "twin-base64-encode-skips-empty", F, _T_B64, _guarded("len(data) > 0", _T_B64))
+T("C04", "twin-netbios-decode-continue-on-empty", F, _R_NB, "                if len(data) == 0:\n                    continue\n" + _R_NB)
+T("C04", "twin-netbiosu-encode-conditional-expression", F, _T_NBU, "                data = netbios_encode(data).upper() if len(data) >= 1 else data\n")
+T("C04", "twin-unmask-named-parts", F, _R_MASK, "                key, masked = data[:4], data[4:]\n                data = xor(masked, key)\n")
+T("C04", "twin-unmask-empty-tail-is-empty-payload", F, _R_MASK, "                key, masked = data[:4], data[4:]\n                data = xor(masked, key) if masked else b\"\"\n")
+T("C04", "twin-unmask-empty-tail-passed-as-tail", F, _R_MASK, "                key, masked = data[:4], data[4:]\n                if masked:\n                    masked = xor(masked, key)\n                data = masked\n")
+T("C04", "twin-unmask-length-guard-else-empty", F, _R_MASK, _guarded("len(data) > 4", _R_MASK) + "                else:\n                    data = b\"\"\n")
+T("C04", "twin-unmask-nothing-to-do-for-empty-blob", F, _R_MASK, "                if not data:\n                    continue\n" + _R_MASK)
